@@ -57,6 +57,7 @@ pub const PLACEMENT_DAMAGE: &[&str] = &[
     "9th-pawn",
     "opponent-in-check",
     "kings-adjacent",
+    "kings-adjacent-diagonal",
 ];
 
 pub fn damage_placement(m: &Model, kind: &str) -> Option<Model> {
@@ -119,11 +120,16 @@ pub fn damage_placement(m: &Model, kind: &str) -> Option<Model> {
             d.sq[s as usize] = Some((KNIGHT, us));
             want = "opponent-in-check";
         }
-        "kings-adjacent" => {
+        "kings-adjacent" | "kings-adjacent-diagonal" => {
             let k = d.king_sq(us)?;
             let ek = d.king_sq(us ^ 1)?;
             let (f, r) = (file_of(ek), rank_of(ek));
-            let offs = [(0i8, 1i8), (1, 1), (1, 0), (1, -1), (0, -1), (-1, -1), (-1, 0), (-1, 1)];
+            // orthogonal neighbours first, or diagonal neighbours only
+            let offs: &[(i8, i8)] = if kind == "kings-adjacent" {
+                &[(0, 1), (1, 0), (0, -1), (-1, 0), (1, 1), (1, -1), (-1, -1), (-1, 1)]
+            } else {
+                &[(1, 1), (1, -1), (-1, -1), (-1, 1)]
+            };
             d.sq[k as usize] = None;
             d.rights[us as usize] = [None, None];
             let s = offs.iter().filter_map(|&(a, b)| mk(f + a, r + b)).find(|&s| d.sq[s as usize].is_none())?;
@@ -374,6 +380,7 @@ pub fn text_cases(m: &Model, shredder: bool) -> Vec<Option<TextCase>> {
             "17th-piece" => "P.17th-piece",
             "9th-pawn" => "P.9th-pawn",
             "opponent-in-check" => "P.opponent-in-check",
+            "kings-adjacent-diagonal" => "P.kings-adjacent-diagonal",
             _ => "P.kings-adjacent",
         };
         let t = damage_placement(m, kind).and_then(|d| {
@@ -635,6 +642,7 @@ pub fn builder_cases(m: &Model) -> Vec<Option<BuilderCase>> {
             "17th-piece" => "B.17th-piece",
             "9th-pawn" => "B.9th-pawn",
             "opponent-in-check" => "B.opponent-in-check",
+            "kings-adjacent-diagonal" => "B.kings-adjacent-diagonal",
             _ => "B.kings-adjacent",
         };
         cases.push(damage_placement(m, kind).map(|d| BuilderCase { name, state: BState::of(&d), expect: Some("InvalidBoard") }));
